@@ -385,7 +385,7 @@ class TraceBackward:
         V = []
         tag = "TRACE peri_mode=%s, %s scenario, integrate(%+g) with dt=%+g" % (peri_mode, scenario, T, 0.02 * sign)
         d = "backward" if sign < 0 else "forward"
-        if abs(sim.t - T) > 1e-9:
+        if not (abs(sim.t - T) <= 1e-9):
             V.append(("trace-encounter:%s:%s:%s:time" % (d, scenario, peri_mode), "%s ended at t=%r" % (tag, sim.t)))
             return V
         moved = max(abs(a - b) for p, q in zip(sim.particles, x0) for a, b in zip((p.x, p.y, p.z), q))
